@@ -1,5 +1,8 @@
 import Okane.Drv.IOUtil
+import Okane.Drv.DecodeSyntax
 import Okane.Spec.Import
+import Okane.Model.ImportCsvCells
+import Okane.Model.ImportLedger
 /-!
 Driver for C17.
 
@@ -7,6 +10,13 @@ Driver for C17.
 `drv c17 rules`  — line: `(case (<rule>...) (<rec>...) (<tab>...))` →
       `(ok (frags <frag>...) (given <frag>))` : every fragment the fold can produce over all iteration orders of the
       field maps (sorted text order, deduplicated), and the one for the order as written; or `(table-incomplete <pat> <text>)`.
+
+`drv c17 csv` (also `drv c15 csv`) — the CSV importer MODEL on the cells of a statement, number cells and templates decoded
+      by the model itself from their TEXT (`Cells.cellEnv` = the model of `str_to_comma_decimal`, `Cells.decodePos` = the model
+      of `Template::from_str`); chrono and the regex engine stay tables handed over by the harness (`hx c15 csv`):
+      line: `(case <entry> (pats (<pattern> 0|1)...) (table <tab>...) (cells (<cell>...) (<cell>...)...) (dates (<cell> (d Y M D))...))`
+      (first cell list = header) → `(ok (import <I>))`, `<I>` = `(ok <txn-tree>...)` | `(err import <Kind> ~)` |
+      `(err to_double_entry <Kind> ~)` | `(panic <site>)`; or `(table-incomplete <pattern> <text>)`.
 
 Forms (text atoms percent-encoded):
   conv   := (conv extract|compute <opt text> sec|pri 0|1)
@@ -248,10 +258,97 @@ def rulesStep (line : String) : String :=
     | _, _, _ => "(bad-case)"
   | _ => "(bad-case)"
 
+/-! ## csv: the importer model from the TEXT of the cells -/
+
+def decEntry : Sexp → Option ConfigEntry
+  | .list [.atom "entry", p, e, a, t, o, .list [.atom "spec", prim, cv], f, .list rs] => do
+    let p ← p.str?; let e ← e.str?; let a ← a.str?; let t ← decAT t
+    let o ← decOpt Sexp.str? o; let prim ← prim.str?; let cv ← decConv cv; let f ← decFormat f
+    let rs ← rs.mapM decRule
+    pure ⟨p, e, a, t, o, ⟨prim, cv⟩, f, rs⟩
+  | _ => none
+
+/-- the part of the configuration `csv::import` reads; template texts go through the MODEL's template parser -/
+def csvCfgOf (e : ConfigEntry) : CsvCfg :=
+  { account := e.account, accountType := e.accountType, operator := e.operator, primary := e.commodity.primary,
+    conversion := e.commodity.conversion, rowOrder := e.format.rowOrder,
+    fields := e.format.fields.map fun kv => (kv.1, Cells.decodePos kv.2), rewrite := e.rewrite }
+
+def decCellRow : Sexp → Option (List String)
+  | .list xs => xs.mapM Sexp.str?
+  | _ => none
+
+def decDates (xs : List Sexp) : Option (List (String × Date)) :=
+  xs.mapM fun
+    | .list [c, d] => do let c ← c.str?; let d ← Drv.decDate d; pure (c, d)
+    | _ => none
+
+def decPatFlags (xs : List Sexp) : Option (List (String × Bool)) :=
+  xs.mapM fun
+    | .list [p, v] => do let p ← p.str?; let v ← decBool v; pure (p, v)
+    | _ => none
+
+/-- `csv::import` after decoding, in the order of the Rust: field map, then the extractor (patterns must compile, fields must
+be ones the CSV matcher knows), then the records -/
+def csvModel (env : CsvEnv) (cfg : CsvCfg) (validPattern : String → Bool) (hdr : List String) (recs : List (List String)) :
+    Outcome ImportErr (List Txn) :=
+  match FieldMap.tryNew cfg.fields hdr with
+  | .ok _ =>
+    match checkRules .csv validPattern (fun _ _ => true) cfg.rewrite with
+    | .ok () => csvImport env cfg hdr recs
+    | .err e => .err e
+    | .panic s => .panic s
+    | .fuelOut => .fuelOut
+  | .err e => .err e
+  | .panic s => .panic s
+  | .fuelOut => .fuelOut
+
+/-- the first (pattern, text) the rules could look at on some record that the table does not decide -/
+def csvTableGap (env : CsvEnv) (cfg : CsvCfg) (hdr : List String) (recs : List (List String)) (t : Table) :
+    Option (String × String) :=
+  match FieldMap.tryNew cfg.fields hdr with
+  | .ok fm =>
+    recs.findSome? fun rec =>
+      match readRow env cfg fm rec with
+      | .ok (some v) =>
+        tableGap cfg.rewrite [(Field.payee, FieldKind.payee (some v.payee)), (Field.category, FieldKind.text v.category false),
+          (Field.secondaryCommodity, FieldKind.text v.secondaryCommodity false)] t
+      | _ => none
+  | _ => none
+
+def csvStep (line : String) : String :=
+  match Sexp.parse line with
+  | some (.list [.atom "case", cfg, .list (.atom "pats" :: pats), .list (.atom "table" :: tab), .list (.atom "cells" :: rows),
+                 .list (.atom "dates" :: dates)]) =>
+    match decEntry cfg, decPatFlags pats, decTab tab, rows.mapM decCellRow, decDates dates with
+    | some entry, some pats, some table, some (hdr :: recs), some dates =>
+      let cfg := csvCfgOf entry
+      let env := Cells.cellEnv (fun s => (dates.find? fun e => e.1 == s).map (·.2)) (tableCaptures table)
+      let valid := fun p => match pats.find? (fun pv => pv.1 == p) with | some pv => pv.2 | none => true
+      let gap := if pats.any (fun pv => !pv.2) then none else csvTableGap env cfg hdr recs table
+      match gap with
+      | some (p, h) => s!"(table-incomplete {Sexp.encode p} {Sexp.encode h})"
+      | none =>
+        let imp :=
+          match csvModel env cfg valid hdr recs with
+          | .ok ts =>
+            (match ledgerOf cfg.account ts with
+             | .ok trs => tagged "ok" (trs.map Drv.encTxn)
+             | .err e => tagged "err" [.atom "to_double_entry", .atom e.kind, .atom "~"]
+             | .panic s => tagged "panic" [mkStr s]
+             | .fuelOut => .atom "(fuel-out)")
+          | .err e => tagged "err" [.atom "import", .atom e.kind, .atom "~"]
+          | .panic s => tagged "panic" [mkStr s]
+          | .fuelOut => .atom "(fuel-out)"
+        (tagged "ok" [tagged "import" [imp]]).toStr
+    | _, _, _, _, _ => "(bad-case)"
+  | _ => "(bad-case)"
+
 def main (args : List String) : IO Unit :=
   match args with
   | "select" :: _ => forEachLine selectStep
   | "rules" :: _ => forEachLine rulesStep
+  | "csv" :: _ => forEachLine csvStep
   | _ => forEachLine fun _ => "(bad-mode)"
 
 end Okane.Drv.C17
